@@ -5,6 +5,31 @@ NOTES = ("Every check: (1) regenerate Gen/*.lean from /repo, (2) lake build the 
          "Exit 2 = infrastructure failure. See DESIGN.md.")
 NOT_YET = {}
 CHECKS = {
+ "C08": dict(
+  text=("Theorems on the model of RecipeSpecStore over any sub-store model (Props/C08.lean): a declared key is listed, contained and carries status 'recipe' with the declared "
+        "title/description before it exists; for EVERY history of reads/listings/removals/cleans the evaluation log grows only at a get_bytes of a declared key the sub-store "
+        "does not contain (induction over the history); over the MemoryStore model: a first read evaluates once, stores the evaluator's bytes for the key's extension with status "
+        "'ready' and the recipe's name/version, remove resets to 'recipe', a failing recipe leaves error metadata and no data; relative references resolve by C19's POSIX "
+        "normalisation against the recipe's directory. Correspondence: generated recipes files (plain/dict form, sections, relative/absolute references, failing recipes) at depth "
+        "0-2 of Memory/File-backed recipe stores mounted in the global store, histories <= 10 operations, every result + key universe + key listing + evaluation log vs the model; "
+        "oracle: bytes = directly evaluated query serialised for the key's extension, independent status state machine, evaluation-log rules."),
+  note=("Trusted: Lean kernel; LiquerModel/Recipes.lean mirror of resolve_recipe_definition / NewRecipeSpecStore / QueryRecipe.make / Context._store_state / evaluate_resource / "
+        "clean_recipes (tied by correspondence); the evaluator is a parameter evalQ(resolved text, extension) tabulated per case by direct evaluation (C01/C11 are about it); YAML "
+        "loading and recipes_status.txt are not modelled; first_read/remove/failure theorems are for the MemoryStore sub-store model (FileStore sub-store: correspondence + "
+        "concrete model runs; partial in that respect)."),
+ ),
+ "C18": dict(
+  text=("Theorems about the metadata record of the evaluator model for EVERY query, fuel, as-typed text, extra parameters and input (Props/C18.lean): outcome = reference "
+        "interpretation; error flag / status / obtainability of a value agree and the final status is ready or error; type identifier and data-characteristics kind are those of "
+        "the value (regenerated table), query = canonical text; last command, namespace, version flag, parent query and argument queries are those of the last executed action; a "
+        "trailing file name changes only query/filename/extension/mimetype (MIMETYPES regenerated); capitalised attributes persist along any chain of predecessors. The agreement of the "
+        "kept copies (cache, store) with the returned metadata is statement-only (c18_kept_copy_agrees_statement) and rests on the oracle: partial. Correspondence: C01/C06 generators "
+        "+ every extension of MIMETYPES, under NoCache, 16 cache configurations cold+warm, store_key into Memory/File stores; projected metadata of returned state vs model; oracle on "
+        "returned, cached and stored metadata from an independent reference interpreter and the live registry."),
+  note=("Trusted: Lean kernel; LiquerModel/EvalMeta.lean mirror of MetadataContextMixin.metadata, the metadata assembly of evaluate_action, State.with_filename/next_state, log_subquery "
+        "(tied by correspondence); Gen/EvalMeta.lean (type identifiers / data-characteristics kinds probed from live state types), Gen/StateTypes.lean (MIMETYPES); the command version hash "
+        "is opaque (flag only); kept-copy agreement is checked on the implementation only; known finding: a query without any action has no status."),
+ ),
  "C03": dict(
   text=("Lean theorems for every finite string of Unicode scalar values and every escape table satisfying the decidable side condition "
         "tableOK (re-proved by `decide` for the table regenerated from ESCAPE_SEQUENCES on each run); the executable model of "
